@@ -51,7 +51,12 @@ def sig_K8(prop, cfg, issue):
             and issue.get('name') == 'w')
 
 
-SIGS = {'K1': sig_K1, 'K2': sig_K2, 'K3': sig_K3, 'K4': sig_K4, 'K5': sig_K5, 'K8': sig_K8}
+def sig_K18(prop, cfg, issue):
+    return (prop == 'C03' and cfg.get('kind') == 'SA' and issue.get('what') == 'exception' and cfg.get('rettype') == 'py'
+            and issue['error']['type'] == 'ZeroDivisionError' and '_update' in _frames(issue))
+
+
+SIGS = {'K18': sig_K18, 'K1': sig_K1, 'K2': sig_K2, 'K3': sig_K3, 'K4': sig_K4, 'K5': sig_K5, 'K8': sig_K8}
 
 
 def classify(prop, cfg, issue):
